@@ -195,9 +195,30 @@ def _infer_dtype(a):
 # ---------------------------------------------------------------------- Tensor
 
 
+_UFUNC_BINOPS = {
+    "add": lambda a, b: add(a, b), "subtract": lambda a, b: subtract(a, b), "multiply": lambda a, b: multiply(a, b),
+    "true_divide": lambda a, b: divide(a, b), "divide": lambda a, b: divide(a, b), "power": lambda a, b: pow(a, b),
+    "floor_divide": lambda a, b: _bin(lambda x, y: x // y, a, b), "remainder": lambda a, b: _bin(lambda x, y: x % y, a, b),
+    "less": lambda a, b: less(a, b), "less_equal": lambda a, b: less_equal(a, b), "greater": lambda a, b: greater(a, b),
+    "greater_equal": lambda a, b: greater_equal(a, b), "equal": lambda a, b: equal(a, b), "not_equal": lambda a, b: not_equal(a, b),
+    "matmul": lambda a, b: matmul(a, b), "maximum": lambda a, b: maximum(a, b), "minimum": lambda a, b: minimum(a, b),
+}
+
+
 class Tensor:
     __array_priority__ = 100000
-    __array_ufunc__ = None
+
+    def __array_ufunc__(self, ufunc, method, *inputs, **kwargs):
+        """numpy operators with a Tensor operand give a Tensor (as TensorFlow's
+        reflected operators do); other numpy ufuncs see the underlying array
+        and give a numpy array (as with TensorFlow's __array__ protocol)."""
+        if method != "__call__" or kwargs.get("out") is not None:
+            return NotImplemented
+        name = ufunc.__name__
+        if name in _UFUNC_BINOPS and len(inputs) == 2:
+            return _UFUNC_BINOPS[name](*inputs)
+        raw = [i.arr if isinstance(i, Tensor) else i for i in inputs]
+        return getattr(ufunc, method)(*raw, **kwargs)
 
     def __init__(self, arr, dtype=None):
         if isinstance(arr, Tensor):
